@@ -289,7 +289,9 @@ def get_cauchy_point(
     t_old += delta_t_min
 
     # the variables already fixed at a bound have a null direction component
-    x_cp += t_old * d
+    # (projected: a variable stopping next to its breakpoint may overshoot its bound by
+    # one ulp)
+    x_cp = np.clip(x_cp + t_old * d, lb, ub)
 
     c += delta_t_min * p
 
